@@ -446,6 +446,191 @@ def check_walk(repo: Repo, res: Result, it: M.Interp, internal: set[str]) -> "bo
     return True
 
 
+# --------------------------------------------------------------------------- R5: the verdict on one import is a function of that import
+
+
+ORDER_NAMES = ("aa", "aa.bb", "aa.bb.cx", "aa.bb.cc", "aa.bb.cc.dd")
+
+
+def var_masks(names: list[str]) -> dict[str, int]:
+    """Bit masks of the assignments (numbered 0 .. 2^n - 1, names[j] = bit j of the number) in which a name is true."""
+    size = 1 << len(names)
+    var: dict[str, int] = {}
+    for j, a in enumerate(names):
+        half = 1 << j
+        block = ((1 << half) - 1) << half
+        m = 0
+        for s in range(0, size, half << 1):
+            m |= block << s
+        var[a] = m
+    return var
+
+
+def truth_table(f: Formula, names: list[str], var: "dict[str, int] | None" = None) -> int:
+    """The truth table of `f` over `names` as one integer (bit i = value under assignment number i).  Shared sub-formulas are
+    evaluated once: the descriptions of the concrete runs are small graphs that print as huge trees."""
+    full = (1 << (1 << len(names))) - 1
+    var = var if var is not None else var_masks(names)
+    memo: dict[int, int] = {}
+
+    def go(g: Formula) -> int:
+        r = memo.get(id(g))
+        if r is not None:
+            return r
+        tag = g[0]
+        if tag == "const":
+            r = full if g[1] else 0
+        elif tag == "atom":
+            r = var[g[1]]
+        elif tag == "not":
+            r = full & ~go(g[1])
+        elif tag == "and":
+            r = full
+            for h in g[1]:
+                r &= go(h)
+        else:
+            r = 0
+            for h in g[1]:
+                r |= go(h)
+        memo[id(g)] = r
+        return r
+
+    return go(f)
+
+
+def state_carriers(repo: Repo, visited: set[str]) -> list:
+    """Writes to objects that outlive the treatment of one import in the functions the interpretation went through: fields of
+    `self` outside the constructor, parameters, locals that may hold an object created elsewhere."""
+    from core.effects import Effects
+
+    eff = Effects(repo, types_of(repo))
+    out = []
+    for f in repo.all_functions():
+        if f.fq not in visited or isinstance(f.node, ast.Lambda) or f.name in ("__init__", "__post_init__", "__new__"):
+            continue
+        for w in eff.writes(f):
+            if w.root_kind == "self" or w.root_kind in ("classvar", "global"):
+                out.append(w)
+    return out
+
+
+def check_order(repo: Repo, res: Result, it: M.Interp, internal: set[str]) -> None:
+    """R5, instance level: whether an import is dropped is decided by the import alone.
+
+    Property: an external disappears exactly when it, or one of its ancestors, matches a pattern.  Necessary: with externals
+    included the retention of the import of N is a function of the pattern facts about N and its ancestors - never of the facts
+    about a descendant, a sibling or any other name, whichever imports were filtered before.  A memo that is sound (it only ever
+    holds names for which "the name or an ancestor matches" is true: the matching name and what lies below it) leaves the
+    retention unchanged; one that also stores the ancestors above the match makes a later import of such an ancestor vanish.
+
+    Decided on the concrete imports of aa, aa.bb, aa.bb.cx, aa.bb.cc, aa.bb.cc.dd, filtered one after the other in both orders
+    (objects of the pipeline keep their fields between the imports): the truth table of every retention condition must not
+    change with EXCL('m') for a name m that is neither N nor an ancestor of N.
+    """
+    if len(it.sinks) != 1:
+        return
+    findings = []
+    inspected = 0
+    visited: set[str] = set()
+    sink = None
+    for order in (ORDER_NAMES, tuple(reversed(ORDER_NAMES))):
+        try:
+            itc = M.Interp(repo, it.entry, it.flag_params, it.ext_params, internal, concrete=True)
+            itc.conc_imports = [M.ConcImport(n) for n in order]
+            itc.run()
+        except Exception as e:  # noqa: BLE001 - the other obligations still speak
+            res.observe(f"C10.R5 order independence: the unrolling on concrete names failed ({type(e).__name__}: {e})")
+            return
+        if len(itc.sinks) != 1 or not isinstance(itc.sinks[0].imports, M.Coll) or any(p.kind != "lit" for p in itc.sinks[0].imports.parts):
+            res.observe("C10.R5 order independence: the import list of the concrete run is not made of the concrete imports only - no verdict")
+            return
+        sink = itc.sinks[0]
+        visited |= itc.visited
+        for ci in itc.conc_imports:
+            k = disj(p.guard for p in sink.imports.parts if p.kind == "lit" and any(i is ci for i in p.items))
+            names_ = sorted(atoms_of(k))
+            lineage = {ci.name, *M.dotted_ancestors(ci.name)}
+            outside = [a for a in names_ if a.startswith("EXCL(") and not any(a == f"EXCL({n!r})" for n in lineage)]
+            if not outside:
+                inspected += 1
+                continue
+            if len(names_) > 16:
+                res.observe(f"C10.R5 order independence: retention of the import of `{ci.name}` mentions {len(names_)} facts - not enumerated")
+                return
+            hard = [a for a in names_ if a in ("FLAG", "HAS") or a.startswith(("EXCL(", "INT("))]
+            soft = [a for a in names_ if a not in hard]
+            if any(not understood(itc, a) for a in names_):
+                res.observe(f"C10.R5 order independence: retention of the import of `{ci.name}` contains tests the model does not know ({', '.join(a for a in names_ if not understood(itc, a))}) - no verdict")
+                return
+            var = var_masks(names_)
+            table = truth_table(k, names_, var)
+            full = (1 << (1 << len(names_))) - 1
+            idx = {a: j for j, a in enumerate(names_)}
+            mask_of = var.__getitem__
+
+            # situations that exist: externals included, patterns present; an internal name has internal descendants
+            ok = full
+            if "FLAG" in idx:
+                ok &= full & ~mask_of("FLAG")
+            if "HAS" in idx:
+                ok &= mask_of("HAS")
+            ints = {a[len("INT("):-1].strip("'\""): a for a in names_ if a.startswith("INT(")}
+            for n, a in ints.items():
+                for m_, b in ints.items():
+                    if m_.startswith(n + "."):
+                        ok &= (full & ~mask_of(a)) | mask_of(b)
+            inspected += 1
+            for o in outside:
+                j = idx[o]
+                low = full & ~mask_of(o)  # assignments with o false; the partner with o true is 2^j further
+                diff = (table ^ (table >> (1 << j))) & low & ok
+                if not diff:
+                    continue
+                # robust in the facts the model cannot judge: whatever their values, some situation shows the dependence
+                robust = True
+                for env_s in M.assignments(soft):
+                    sel = full
+                    for a, v in env_s.items():
+                        sel &= mask_of(a) if v else (full & ~mask_of(a))
+                    if not (diff & sel):
+                        robust = False
+                        break
+                if not robust:
+                    res.observe(f"C10.R5 order independence: retention of the import of `{ci.name}` changes with {o} only for some values of {', '.join(soft)} - no verdict")
+                    continue
+                i = (diff & -diff).bit_length() - 1
+                env = {a: bool((i >> idx[a]) & 1) for a in names_}
+                kept_when = bool((table >> i) & 1)
+                findings.append((ci.name, o[len("EXCL("):-1].strip("'\""), env, kept_when, [n for n in order], k))
+    if sink is None:
+        return
+    sink_key = repo.key(sink.fi, stmt_of(sink.node) or sink.node)
+    construct = sink_key + " [an import is judged on its own]"
+    if findings:
+        ws = state_carriers(repo, visited)
+        carriers = []
+        for w in ws:
+            t = f"`{header(stmt_of(w.node))}` in {w.fi.qualname}"
+            if t not in carriers:
+                carriers.append(t)
+        # the shortest name whose verdict is spoiled: the ancestor that vanishes
+        n, m_, env, kept_when, order, _k = min(findings, key=lambda f_: (len(f_[0]), f_[0], f_[1]))
+        rel = "descendant" if m_.startswith(n + ".") else ("sibling" if m_.rpartition(".")[0] == n.rpartition(".")[0] else "unrelated name")
+        others = sorted({f"`{a}` (by `{b}`)" for a, b, *_ in findings if (a, b) != (n, m_)})
+        detail = (
+            f"with externals included the import of the external `{n}` is {'kept' if kept_when else 'dropped'} when no pattern matches `{m_}` and {'dropped' if kept_when else 'kept'} when one does "
+            f"(all other facts equal: {fmt_env(env, {a for a in env if a != f'EXCL({m_!r})'})}; imports filtered in the order {', '.join(order)}), although `{m_}` is a {rel} of `{n}`, neither `{n}` nor one of its ancestors: "
+            f"the verdict on one import depends on which imports were filtered before it - an external that matches no pattern and has no matching ancestor vanishes with its import. "
+            + (f"State kept between imports: {'; '.join(carriers[:4])}. " if carriers else "")
+            + "A memo of excluded names may only hold names for which `the name or one of its ancestors matches` is true (the matching name and its descendants), never the ancestors above the match."
+            + (f" Also spoiled: {', '.join(others[:6])}." if others else "")
+        )
+        at = where(ws[0].fi, ws[0].node) if ws else where(sink.fi, sink.node)
+        res.add("C10.R5", construct, False, detail, at, kind="decision-table")
+        return
+    res.add("C10.R5", construct, True, f"unrolled on imports of {', '.join(ORDER_NAMES)} filtered in both orders with the objects of the pipeline keeping their fields: no retention condition depends on a pattern fact about a name outside the import's own lineage ({inspected} conditions inspected)", where(sink.fi, sink.node), kind="decision-table")
+
+
 # --------------------------------------------------------------------------- the rules on one sink
 
 
@@ -826,6 +1011,7 @@ def run(repo: Repo) -> Result:
     if not it.sinks:
         res.undecide("C10.R1", f"{it.entry.relpath}::{it.entry.qualname}::graph construction", f"no construction of {M.SINK_CLASS}(modules, imports, ..) was met while interpreting the scan entry point", where(it.entry, it.entry.node))
     walk_ok = check_walk(repo, res, it, internal) if it.sinks else None
+    check_order(repo, res, it, internal)
     for s in it.sinks:
         check_sink(repo, res, it, s, walk_ok)
     run_r2(repo, res, it, internal, how)
